@@ -3,16 +3,17 @@
 package harness
 
 import (
-	"go.uber.org/zap"
-	"reflect"
-	"unsafe"
 	"context"
+	"errors"
 	"fmt"
+	"go.uber.org/zap"
 	"math/rand"
 	"os"
+	"reflect"
 	"sync"
 	"sync/atomic"
 	"time"
+	"unsafe"
 
 	"github.com/ali-assar/NATS-Leader-Election/leader"
 	"github.com/nats-io/nats.go"
@@ -47,14 +48,15 @@ func (w *memWatcher) Stop() {
 }
 
 type memKV struct {
-	mu       sync.Mutex
-	recs     map[string]*memEntry
-	seq      uint64
-	watchers map[*memWatcher]bool
-	rng      *rand.Rand
-	fail     atomic.Int32 // per-mille probability of a transient error
-	slowWatch bool        // profile B: every other Watch call is slow, so that stop calls with short time-outs leave a watch loop behind
-	onUpdate func(prev, next []byte) // called (under the store's mutex) for every Update that is applied
+	mu        sync.Mutex
+	recs      map[string]*memEntry
+	seq       uint64
+	watchers  map[*memWatcher]bool
+	rng       *rand.Rand
+	fail      atomic.Int32            // per-mille probability of a transient error
+	slowWatch bool                    // profile B: every other Watch call is slow, so that stop calls with short time-outs leave a watch loop behind
+	mockWords bool                    // profile C: conflicts and misses in the words of the package's own mock store; a read now and then takes longer than the heartbeat's time-out
+	onUpdate  func(prev, next []byte) // called (under the store's mutex) for every Update that is applied
 }
 
 func newMemKV(seed int64) *memKV {
@@ -117,6 +119,12 @@ func (k *memKV) Update(key string, value []byte, rev uint64, opts ...interface{}
 	defer k.mu.Unlock()
 	cur, ok := k.recs[key]
 	if !ok || cur.rev != rev {
+		if k.mockWords {
+			if !ok {
+				return 0, errors.New("key not found")
+			}
+			return 0, errors.New("revision mismatch")
+		}
 		return 0, &nats.APIError{ErrorCode: 10071, Description: "wrong last sequence"}
 	}
 	if k.onUpdate != nil {
@@ -131,6 +139,14 @@ func (k *memKV) Update(key string, value []byte, rev uint64, opts ...interface{}
 
 func (k *memKV) Get(key string) (leader.Entry, error) {
 	k.lat()
+	if k.mockWords {
+		k.mu.Lock()
+		slow := k.rng.Intn(5) == 0
+		k.mu.Unlock()
+		if slow {
+			time.Sleep(time.Duration(1050+rand.Intn(200)) * time.Millisecond)
+		}
+	}
 	if err := k.maybeFail(); err != nil {
 		return nil, err
 	}
@@ -187,7 +203,7 @@ type memProvider struct {
 }
 
 func (p *memProvider) JetStream() (leader.JetStreamContext, error) { return memJS{p.kv}, nil }
-func (p *memProvider) NATSConnection() *nats.Conn                 { return p.conn }
+func (p *memProvider) NATSConnection() *nats.Conn                  { return p.conn }
 
 // discardLogger is a stateless Logger.
 type discardLogger struct{}
@@ -292,6 +308,7 @@ func runRace(rep *Report, rng *rand.Rand, n int, thorough bool) error {
 	for round := 0; round < rounds; round++ {
 		kv := newMemKV(rng.Int63())
 		kv.slowWatch = (rep.Seed+int64(round))%2 == 0
+		kv.mockWords = (rep.Seed+int64(round))%2 == 1
 		h := []time.Duration{20, 40, 100}[rng.Intn(3)] * time.Millisecond
 		var els []leader.Election
 		var conns []*nats.Conn
@@ -446,9 +463,19 @@ func runRace(rep *Report, rng *rand.Rand, n int, thorough bool) error {
 		}
 		// an outside writer and transient store failures keep terms short
 		spawn(rng.Int63(), func(r *rand.Rand) {
-			switch r.Intn(3) {
+			switch r.Intn(4) {
 			case 0:
 				_ = kv.Delete("g")
+			case 3:
+				// the record is overwritten from outside: the leader's next refresh is refused as a conflict
+				kv.mu.Lock()
+				if _, ok := kv.recs["g"]; ok {
+					kv.seq++
+					e := &memEntry{"g", []byte(`{"id":"outsider","token":"zz","priority":0}`), kv.seq}
+					kv.recs["g"] = e
+					kv.notify(e)
+				}
+				kv.mu.Unlock()
 			case 1:
 				kv.fail.Store(int32(r.Intn(300)))
 			default:
